@@ -280,6 +280,40 @@ theorem spres_pRetract (id : Id) (x : Option Nat) : SPres (pRetract id x) := by
       | exact h1
       | (refine h1.set id _ ?_ rfl; exact hy.edit _ (by decide) rfl rfl rfl rfl rfl rfl rfl rfl rfl)
 
+theorem spres_pCheck2 (a b : Id) (pred : Staged → Staged → Option Err) : SPres (pCheck2 a b pred) := by
+  intro s tx e h
+  unfold pCheck2
+  split
+  · exact h.same rfl
+  · rename_i tx1 x hl
+    obtain ⟨h1, _⟩ := load_entry h hl
+    split
+    · exact h1.same rfl
+    · rename_i tx2 y hl2
+      obtain ⟨h2, _⟩ := load_entry h1 hl2
+      split <;> exact h2.same rfl
+
+theorem spres_pExpectStatus (id : Id) (x : Option Nat) : SPres (pExpectStatus id x) := by
+  intro s tx e h
+  unfold pExpectStatus
+  split
+  · exact h.same rfl
+  · exact spres_pCheck2 _ _ _ _ _ _ h
+
+theorem spres_pEdit (id : Id) (k : Option Kind) (g : Staged → Option Err) (f : Row → Row) (al : Bool) (op : Op)
+    (hop : op ≠ .create) : SPres (pEdit id k g f al op) := by
+  intro s tx e h
+  unfold pEdit
+  split
+  · exact h.same rfl
+  · rename_i tx1 y hl
+    obtain ⟨h1, hy⟩ := load_entry h hl
+    repeat' split
+    all_goals first
+      | exact h1.same rfl
+      | exact h1
+      | (refine h1.set id _ ?_ rfl; exact hy.edit op hop rfl rfl rfl rfl rfl rfl rfl rfl rfl)
+
 theorem applyAct_imm (a : Act) (r : Row) :
     (applyAct a r).ty = r.ty ∧ (applyAct a r).key = r.key ∧ (applyAct a r).tup = r.tup ∧ (applyAct a r).pay = r.pay := by
   cases a <;> exact ⟨rfl, rfl, rfl, rfl⟩
@@ -361,6 +395,9 @@ macro "spres_chain" h:ident : tactic => `(tactic|
     | exact spres_pRetract _ _ _ _ _ $h
     | exact spres_pPurge _ _ _ _ _ $h
     | exact spres_pAssign _ _ _ _ _ $h
+    | exact spres_pEdit _ _ _ _ _ _ (by decide) _ _ _ $h
+    | exact spres_pCheck2 _ _ _ _ _ _ $h
+    | exact spres_pExpectStatus _ _ _ _ _ $h
     | exact spres_pFail _ _ _ _ $h
     | exact spres_pGuard _ _
     | exact spres_pLoad _
@@ -368,6 +405,9 @@ macro "spres_chain" h:ident : tactic => `(tactic|
     | exact spres_pBind _ _
     | exact spres_pStageNew _ _
     | exact spres_pAssign _ _
+    | exact spres_pEdit _ _ _ _ _ _ (by decide)
+    | exact spres_pCheck2 _ _ _
+    | exact spres_pExpectStatus _ _
     | apply SInv.andThen
     | apply SPres.pMint
     | (intro _id; apply SPres.chain)
